@@ -190,7 +190,11 @@ func (x *c12) sweep(a *agg12, base uint64, first uint64, deadline time.Time, wor
 				if maxRuns > 0 && to > first+maxRuns {
 					to = first + maxRuns
 				}
-				lines, exit, se, timed := x.spawn(300*time.Second, "off", "-base", fmt.Sprint(base), "-from", fmt.Sprint(from), "-to", fmt.Sprint(to), "-profile", "mixed")
+				args := []string{"-base", fmt.Sprint(base), "-from", fmt.Sprint(from), "-to", fmt.Sprint(to), "-profile", "mixed"}
+				if x.e.tier == "thorough" && !record && (to/chunk)%2 == 0 {
+					args = append(args, "-deep")
+				}
+				lines, exit, se, timed := x.spawn(300*time.Second, "off", args...)
 				if timed || exit != 0 {
 					// find the in-flight run
 					var infl *line12
